@@ -1019,6 +1019,11 @@ fn parse_json_filter(input: &[u8], output: &mut [u8]) -> Result<(usize, usize), 
             // write count
             put(output, countindex, count.to_ne_bytes().as_slice())?;
         }
+        // All lengths, counts and offsets of the tags are stored as u16
+        // (tags without values grow the section too)
+        if end - write_tags_start > u16::MAX as usize {
+            return Err(InnerError::JsonBadFilter("Tags are too long", inpos).into());
+        }
         // write length of tags section
         put(
             output,
